@@ -17,9 +17,18 @@ from mc.contexp import check
 SCHEMAS = ["vt.aa", "vt.bb", "vt.cc", "core.file"]
 
 
-def make_cfg(name, seed=0, max_dev=1, checks=("toc_sync", "toc_vs_model", "inmem_vs_rebuilt"), schemas=SCHEMAS, envs=("old",)):
+# unusual but legal node names: '=' (separator inside stored-object names), the reserved prefix as infix / suffix,
+# a name that is a string prefix of its sibling (IH5 keys are limited to printable ASCII without blank and '@' by design)
+ODD_NAMES = ("T=300K", "raw_metador_export", "x.metador_", "T=300K_b", "~=1")
+
+
+def names_for(cfg_name):
+    return ODD_NAMES if str(cfg_name).endswith("odd") else None
+
+
+def make_cfg(name, seed=0, max_dev=1, checks=("toc_sync", "toc_vs_model", "inmem_vs_rebuilt"), schemas=SCHEMAS, envs=("old",), names=None):
     pool = [("g", "d", "e", "h", "f"), ("grp", "ds", "e2", "hh", "ff"), ("a", "a", "ab", "b", "c"), ("x.y", "x", "y", "z", "x_")]
-    g, d, e, h, f = pool[seed % len(pool)]
+    g, d, e, h, f = names or pool[seed % len(pool)]
     G, GD, E, H, GF = f"/{g}", f"/{g}/{d}", f"/{e}", f"/{h}", f"/{g}/{f}"
     ops = [["mkds", E], ["mkds", GD], ["mkgrp", G], ["del", G], ["del", GD], ["del", E], ["del", H]]
     for n in ("/", G, GD, E):
@@ -195,7 +204,14 @@ def run(tier, seed):
     fam = {}
     violations = []
     samples = []
-    with parallel.make_pool("mc.contexp", {"cfgs": {"c06": cfg}, "envs": ["old"], "check_modules": ["mc.props.c06"]}) as pool:
+    cfg_odd = make_cfg("c06odd", seed, max_dev=1, names=ODD_NAMES)
+    with parallel.make_pool("mc.contexp", {"cfgs": {"c06": cfg, "c06odd": cfg_odd}, "envs": ["old"], "check_modules": ["mc.props.c06"]}) as pool:
+        for drv in ("h5", "ih5"):
+            # the same alphabet over unusual but legal node names
+            r = contexp.bfs(pool, "c06odd", cfg_odd, drv, 2 if q else 3, budget_s=budget, t0=t0)
+            violations += r.pop("violations")
+            r.pop("samples")
+            fam[drv + "-odd-names"] = r
         for drv in ("h5", "ih5"):
             r = contexp.bfs(pool, "c06", cfg, drv, depth[drv], budget_s=budget, t0=t0)
             violations += r.pop("violations")
@@ -230,6 +246,6 @@ def run(tier, seed):
 
 def replay(data):
     c = data["config"]
-    cfg = make_cfg(c["cfg"], env.seed(), max_dev=9, checks=c["checks"], envs=c.get("envs", ["old"]))
+    cfg = make_cfg(c["cfg"], env.seed(), max_dev=9, checks=c["checks"], envs=c.get("envs", ["old"]), names=names_for(c["cfg"]))
     contexp.worker_init({c["cfg"]: cfg}, envs=c.get("envs", ["old"]), check_modules=["mc.props.c06"])
     return contexp.check_history((cfg, c["driver"], data["history"]))
